@@ -19,6 +19,7 @@ with
 Anything else raises Unsupported (fail closed)."""
 import ast
 import re
+import textwrap
 from translate import Ctx, Fn, Unsupported, dotted, find_def, params_str
 
 FD = 'fedjax/core/federated_data.py'
@@ -745,6 +746,49 @@ def _yield_from_get_clients(fd):
   return None
 
 
+def O_same(qual, coqname, expected_src):
+  """Recogniser: the body of `qual` (docstring and comments aside) must be exactly `expected_src`.
+  For methods that are hand-mirrored in Model/C08_Model.v (SQL statements, cursor loops, the
+  `while True` shuffle loops): any edit is reported as a broken tie."""
+  want = ast.dump(ast.Module(body=_strip_doc(ast.parse(textwrap.dedent(expected_src)).body), type_ignores=[]))
+
+  def emit(tree):
+    fd = find_def(tree, qual)
+    got = ast.dump(ast.Module(body=_strip_doc(fd.body), type_ignores=[]))
+    if got != want:
+      raise Unsupported(f'{qual}: body differs from the mirrored text')
+    return f'Definition {coqname}_recognised : bool := true.'
+  return emit
+
+
+def _assign_value(target):
+  def pick(fd):
+    for st in fd.body:
+      if isinstance(st, ast.Assign) and len(st.targets) == 1:
+        try:
+          if dotted(st.targets[0]) == target:
+            return st.value
+        except Unsupported:
+          pass
+    raise Unsupported(f'no top-level assignment to {target}')
+  return pick
+
+
+SHUFFLE_VIA_CLIENTS = """
+rng = np.random.RandomState(seed)
+while True:
+  for client_id, dataset in client_datasets.buffered_shuffle(
+      self.clients(), buffer_size, rng):
+    yield client_id, dataset
+"""
+SQL_FETCH_LOOP = """
+while True:
+  result = cursor.fetchone()
+  if result is None:
+    break
+  yield {item}
+"""
+
 PRE = 'From FV Require Import Common.Bytes.\n'
 SELF_RANGE = {'self._start': 'start', 'self._stop': 'stop'}
 SEC = ('Section Obj.\nContext {F G E Base R D : Type}.\n'
@@ -850,6 +894,7 @@ MODULES = {
             O_expr('SubsetFederatedData.get_clients', 'subset_get_clients_item', [('client_id', 'B'), ('dataset', 'D')], ('B', 'D'),
                    lambda fd: _loop(fd).body[1].value.value,
                    shape=_for_yield('self._base.get_clients(client_ids)', ['client_id', 'dataset'], 'raise')),
+            O_same('SubsetFederatedData.shuffled_clients', 'subset_shuffled_clients', SHUFFLE_VIA_CLIENTS),
             O_expr('SubsetFederatedData.client_sizes', 'subset_client_sizes_keeps', [('client_ids0', 'ids'), ('client_id', 'B')], 'bool',
                    lambda fd: _loop(fd).body[0].test, names=SUBNAMES,
                    shape=_for_yield('self._base.client_sizes()', ['client_id', 'size'], 'keep')),
@@ -882,6 +927,20 @@ MODULES = {
                   subs={'self._client_to_data_mapping[client_id]': ('stored', 'E')},
                   ctors={'client_datasets.ClientDataset': (['E', 'gfns'], {})},
                   calls={'self._preprocess_client': _method_call('fns', 'client_preprocessor_call applyc {0} {1} {2}', ['B', 'E'], 'E', 'func')}),
+            # __init__: self._client_ids = sorted(self._client_to_data_mapping.keys())
+            O_expr('InMemoryFederatedData.__init__', 'in_memory_init_client_ids', [('mapping', 'mapping')], 'ids',
+                   _assign_value('self._client_ids'), names=PRE_NAMES),
+            O_same('InMemoryFederatedData.shuffled_clients', 'in_memory_shuffled_clients', SHUFFLE_VIA_CLIENTS),
+            O_same('InMemoryFederatedData.client_sizes', 'in_memory_client_sizes', """
+for client_id in self._client_ids:
+  yield client_id, client_datasets.num_examples(
+      self._client_to_data_mapping[client_id], validate=False)
+"""),
+            O_same('InMemoryFederatedData.client_size', 'in_memory_client_size', """
+return client_datasets.num_examples(
+    self._client_to_data_mapping[client_id], validate=False)
+"""),
+            O_same('InMemoryFederatedData.get_client', 'in_memory_get_client', "return self._client_dataset(client_id)"),
             O_expr('InMemoryFederatedData.num_clients', 'in_memory_num_clients', [('client_ids0', 'ids')], 'Z', _ret_value,
                    names=PRE_NAMES, shape=_only_return),
             O_expr('InMemoryFederatedData.client_ids', 'in_memory_client_ids', [('client_ids0', 'ids')], 'ids', _ret_value,
@@ -906,6 +965,61 @@ MODULES = {
                    [('start', 'optB'), ('stop', 'optB'), ('client_id', 'B')], SELF_RANGE),
             B_test('SQLiteFederatedData.client_size', 'sqlite_client_size_in_range',
                    [('start', 'optB'), ('stop', 'optB'), ('client_id', 'B')], SELF_RANGE),
+            O_same('SQLiteFederatedData.num_clients', 'sqlite_num_clients', """
+cursor = self._connection.execute(
+    f'SELECT COUNT(*) FROM federated_data WHERE {self._range_where()};', {
+        'start': self._start,
+        'stop': self._stop
+    })
+return cursor.fetchone()[0]
+"""),
+            O_same('SQLiteFederatedData.client_ids', 'sqlite_client_ids', """
+cursor = self._connection.execute(
+    f'SELECT client_id FROM federated_data WHERE {self._range_where()} ORDER BY rowid;',
+    {'start': self._start, 'stop': self._stop})
+""" + SQL_FETCH_LOOP.format(item='result[0]')),
+            O_same('SQLiteFederatedData.client_sizes', 'sqlite_client_sizes', """
+cursor = self._connection.execute(
+    f'SELECT client_id, num_examples FROM federated_data WHERE {self._range_where()} ORDER BY rowid;',
+    {'start': self._start, 'stop': self._stop})
+""" + SQL_FETCH_LOOP.format(item='tuple(result)')),
+            O_same('SQLiteFederatedData._read_clients', 'sqlite_read_clients', """
+cursor = self._connection.execute(
+    f'SELECT client_id, data FROM federated_data WHERE {self._range_where()} ORDER BY rowid;',
+    {'start': self._start, 'stop': self._stop})
+""" + SQL_FETCH_LOOP.format(item='tuple(result)')),
+            O_same('SQLiteFederatedData.shuffled_clients', 'sqlite_shuffled_clients', """
+rng = np.random.RandomState(seed)
+while True:
+  for k, v in client_datasets.buffered_shuffle(self._read_clients(),
+                                               buffer_size, rng):
+    yield k, self._client_dataset(k, v)
+"""),
+            O_same('SQLiteFederatedData.client_size', 'sqlite_client_size', """
+if ((self._start is None or self._start <= client_id) and
+    (self._stop is None or client_id < self._stop)):
+  cursor = self._connection.execute(
+      'SELECT num_examples FROM federated_data WHERE client_id = ?',
+      [client_id])
+  result = cursor.fetchone()
+  if result is not None:
+    return result[0]
+raise KeyError
+"""),
+            O_same('SQLiteFederatedData.get_client', 'sqlite_get_client', """
+if ((self._start is None or self._start <= client_id) and
+    (self._stop is None or client_id < self._stop)):
+  cursor = self._connection.execute(
+      'SELECT data FROM federated_data WHERE client_id = ?', [client_id])
+  result = cursor.fetchone()
+  if result is not None:
+    return self._client_dataset(client_id, result[0])
+raise KeyError
+"""),
+            O_same('SQLiteFederatedData.new', 'sqlite_new', """
+connection = sqlite3.connect(path)
+return SQLiteFederatedData(connection, parse_examples)
+"""),
             O_fun('SQLiteFederatedData.slice', 'sqlite_slice',
                   [('start0', 'optB'), ('stop0', 'optB'), ('pc', 'fns'), ('pb', 'gfns'), ('start', 'optB'), ('stop', 'optB')],
                   ('optB', 'optB', 'fns', 'gfns'),
